@@ -78,6 +78,9 @@ func (g *gen) funcInChanOut(name string, typ types.Type) (inTyp, outTyp types.Ty
 	}
 	params := sig.Params()
 	results := sig.Results()
+	if sig.Variadic() {
+		return nil, nil, fmt.Errorf("%s, variadic functions are not supported", name)
+	}
 	if params.Len() != 1 {
 		return nil, nil, fmt.Errorf("%s, the function has more than one parameter", name)
 	}
